@@ -58,7 +58,7 @@ def corpus_cases():
 def run(ctx):
     proof = vlib.coq_prove(ctx, FILES)
     bins = build(ctx, VARIANTS_THOROUGH if ctx.tier == 'thorough' else VARIANTS_QUICK)
-    n = ctx.budget(6000, 120000)
+    n = ctx.budget(6000, 60000)
     cases = corpus_cases()
     ncorpus = len(cases)
     hist = {}
@@ -73,7 +73,11 @@ def run(ctx):
     # proof ok: the model as tie A reads the header now is the oracle (it is the proved one);
     # otherwise the model the theorems are proved for
     oracle = 'remover' if proof['ok'] else 'remover-spec'
-    stats, model, texts, usable = rd.correspond(ctx, bins, cases, model_domain=oracle)
+    what = 'ScopedRemover'
+    if not proof['ok']:
+        what += ' [proof step failed: %s; oracle = the model the theorems are proved for]' % '; '.join(proof['errors'])[:300]
+    stats, model, texts, usable = rd.correspond(ctx, bins, cases, model_domain=oracle, what=what,
+                                                also_legal_in=None if proof['ok'] else 'remover')
     for i in usable[ncorpus:ncorpus + 2]:
         ctx.samples.append({'case': texts[i].strip().split('\n'), 'model_trace': model[i][:40]})
     if not proof['ok'] and not ctx.violations:
